@@ -65,7 +65,7 @@ CLAIMED = {
              "C07_resolved_account: the decision is taken on the canonical name of the resolved account. The whole-name, "
              "case-insensitive matching of patterns (regexify + Go regexp) is modelled (RE2 fragment, derivative matcher) and tied "
              "by ~15k generated (configuration, probe) decisions per quick run, each judged by the Lean specification firstBearing."
-             " Also: account-manager Lock/Unlock requests; a listing stage; and the path from the configuration FILE to the checker (the built binary's --show-permissions must print every operation list in the order written). Identity variants of every configured client (case, blanks, look-alikes, extensions) through the real gRPC API. Creation stage: the specification must grant Create for the name the account now has.",
+             " Also: account-manager Lock/Unlock requests; a listing stage; and the path from the configuration FILE to the checker (the built binary's --show-permissions must print every operation list in the order written). Identity variants of every configured client (case, blanks, look-alikes, extensions) through the real gRPC API. Creation stage: the specification must grant Create for the name the account now has. C07_precheck_is_source: the signer's preCheck / fetchAccount / checkAccess / unlockAccount are translated from the source on every run and proved equal to the model's preCheck.",
         note="One hypothesis about the string-level regex parser (regexify's output parses to the anchored shape around the parse of the pattern, ShapeOK) is not proved; the driver evaluates it for every pattern in use. Go regexp outside the modelled fragment and Unicode folding are not covered. main.go's map-ordered entry list is out of scope (the ordered list given to the checker is what is modelled).",
         ref="DESIGN.md §6 C07"),
     "C08": dict(
@@ -132,7 +132,7 @@ CLAIMED = {
              "call sequences of every request equal the model's; steered concurrent schedules (a request parked between read and write) "
              "are judged by a Wing-Gong search in the Lean driver against the sequential model, plus slashability of everything released; soak runs."
              " Start-up histories: stores pre-filled with old-format / current / no records, the first state write after the service starts stalled, a request conflicting with one answered earlier must be refused."
-             " Every concurrent scenario starts after the locker has served 1500 other keys; a Go panic during a scenario is reported with the scenario as the failing input; start-up histories with the store's maintenance goroutine running.",
+             " Every concurrent scenario starts after the locker has served 1500 other keys; a Go panic during a scenario is reported with the scenario as the failing input; start-up histories with the store's maintenance goroutine running. C04_lock_protocol_is_source / C04_rules_path_is_source: RunRules' lock calls, key width and rule-path choice are translated from the source on every run and proved to be the model's; scenario kind refused-entry-vs-single.",
         note="Assumed: Go's sync.Mutex semantics and memory model, badger atomic writes. Real interleavings are sampled and steered, only the model's are covered universally.",
         ref="DESIGN.md §6 C04"),
     "C15": dict(
@@ -142,7 +142,7 @@ CLAIMED = {
              "deadlocks on [0,1] vs [1,0]). Tie: lock-call traces equal the model's (all Locks between PreLock and PostLock, Unlocks "
              "after the rules in reverse, none on a failed duplicate check); concurrent batches with opposite/nested/crossing key orders "
              "and sustained load must complete within a watchdog under several GOMAXPROCS."
-             " Also: stores in which several keys hold undecodable records. First use of still-locked accounts by requests that learn the lock state late (stalelock).",
+             " Also: stores in which several keys hold undecodable records. First use of still-locked accounts by requests that learn the lock state late (stalelock). C04_lock_protocol_is_source / C15_distinct_keys_is_source: the lock protocol and the duplicate-key refusal of RunRules are translated from the source on every run and proved to be the model's lockWrap / firstDup. Bursts of single requests for distinct keys.",
         note="Assumed: a blocked Mutex.Lock proceeds once the mutex is free.",
         ref="DESIGN.md §6 C15"),
     "C12": dict(
